@@ -251,7 +251,7 @@ let run (cols : string array) : string =
       let rec find l = match l with [] -> None | (k, r) :: rest -> if k = t then Some r else find rest in
       (match find specs with
        | None -> "NOSPEC"
-       | Some r -> (if matchb r tags then "MEMBER\t1" else "MEMBER\t0") ^ (if List.mem t inclusion_open then "\topen" else "\tproved"))
+       | Some alts -> (if List.exists (fun r -> matchb r tags) alts then "MEMBER\t1" else "MEMBER\t0") ^ (if List.mem t inclusion_open then "\topen" else "\tproved"))
   | "extract" ->
       (match extract_field_content (unhex cols.(1)) (unhex cols.(2)) with
        | None -> "NONE"
